@@ -1240,7 +1240,7 @@ var c06Corpus = []c06CorpusCase{
 }
 
 func c06Gen(rng *rand.Rand, tier string, w *bufio.Writer) {
-	cases, length := 60, 40
+	cases, length := 150, 40
 	if tier == "thorough" {
 		cases, length = 600, 120
 	}
@@ -1265,8 +1265,8 @@ func c06Gen(rng *rand.Rand, tier string, w *bufio.Writer) {
 		for j := 0; j < l; j++ {
 			o := c06RandOp(rng, meta)
 			// nearly every Uint32SliceDelete on a live key ends in the (listed) self-deadlock and costs
-			// the op timeout: keep it to a few cases per run (thorough: one case in eight)
-			for strings.HasPrefix(o, "u32del") && !(i < 4 || (tier == "thorough" && i%8 == 0)) {
+			// the op timeout: (before the repair of that deadlock) costs the op timeout: one case in six (thorough: every second)
+			for strings.HasPrefix(o, "u32del") && !(i%6 == 0 || (tier == "thorough" && i%2 == 0)) {
 				o = c06RandOp(rng, meta)
 			}
 			ops = append(ops, o)
